@@ -120,9 +120,66 @@ theorem knot_hc (e : EOracle) : ∀ (n : Nat) (s : St) (c : Cmd), kHandleCommand
       fw := fun s w => fw1_eq _ e n gk s w
       hitl0 := rfl }
 
+/-! ### the second layer with `app.handleCommand` plugged in -/
+
+theorem atomX1_eq (hc : St → Cmd → Option St) (e : EOracle) (fuel : Nat) (hg : ∀ s c, hc s c = some (eHandleCommand e fuel s c))
+    (ev : Ev) (m : VMX) (l : Line) : atomX1 hc e fuel ev m l = atomX e fuel ev m l := by
+  obtain ⟨d, k, e1, e2⟩ := l
+  unfold atomX1
+  simp only []
+  split
+  · subst_vars
+    simp only [atomX, atom, liftRes, liftCtl, setS, hg]
+    split <;> simp_all
+  · rfl
+
+theorem execX1_eq (hc : St → Cmd → Option St) (e : EOracle) (fuel : Nat) (hg : ∀ s c, hc s c = some (eHandleCommand e fuel s c))
+    (ev : Ev) : ∀ (st : Stmt) (m : VMX), execX1 hc e fuel ev st m = execX e fuel ev st m := by
+  intro st
+  induction st with
+  | skip => intro m; rfl
+  | bad => intro m; rfl
+  | atom l => intro m; exact atomX1_eq hc e fuel hg ev m l
+  | seq a b iha ihb => intro m; simp only [execX1, execX, iha, ihb]; rfl
+  | ite c t el iht ihe =>
+    intro m
+    by_cases hsp : c = .un "!" (.call (.var "r.findPath"))
+    · subst hsp
+      simp only [execX1, execX, iht, ihe]
+      rfl
+    · rw [execX1.eq_5 hc e fuel ev m c t el hsp, execX.eq_5 e fuel ev m c t el hsp]
+      simp only [iht, ihe]
+      rfl
+  | loop c b p ihb ihp => intro m; rfl
+  | range k v b ih => intro m; rfl
+  | rangeOver k v coll b ih =>
+    intro m
+    have e1 : execX1 hc e fuel ev b = execX e fuel ev b := by funext m; exact ih m
+    cases coll <;> simp only [execX1, execX, e1] <;> rfl
+  | sw t tag c ih =>
+    intro m
+    by_cases hsp : t = true ∧ tag = .lit "v1 := v0.(type)"
+    · obtain ⟨rfl, rfl⟩ := hsp
+      simp only [execX1, execX, ih]
+      rfl
+    · have h1 : execX1 hc e fuel ev (.sw t tag c) m = none := by
+        unfold execX1
+        split <;> first | rfl | (exfalso; simp_all)
+      have h2 : execX e fuel ev (.sw t tag c) m = none := by
+        unfold execX
+        split <;> first | rfl | (exfalso; simp_all)
+      rw [h1, h2]
+  | case l b r ihb ihr => intro m; simp only [execX1, execX, ihb, ihr]; rfl
+
+theorem muK_eq (hc : St → Cmd → Option St) (e : EOracle) (fuel : Nat) (hg : ∀ s c, hc s c = some (eHandleCommand e fuel s c))
+    (s : St) (t : STree) : runMouseUpdateK hc muT expC e fuel s t = some (eMouseUpdate e fuel s t) := by
+  unfold runMouseUpdateK
+  rw [execX1_eq hc e fuel hg]
+  exact mu_all e fuel s t
+
 theorem good_kK1 (e : EOracle) (F : Nat) : GoodK e F (kK1 expA e F) := ⟨knot_hc e F, iFindPath_eq⟩
 
-theorem good_kK1_upd (e : EOracle) (F : Nat) : GoodUpd e F (kK1 expA e F) := fun s t => mu_all e F s t
+theorem good_kK1_upd (e : EOracle) (F : Nat) : GoodUpd e F (kK1 expA e F) := fun s t => muK_eq _ e F (knot_hc e F) s t
 
 theorem knot_fw (e : EOracle) (n : Nat) (s : St) (w : Id) : kFocusWidget expA e n s w = some (eFocusWidget e (n + 1) s w) :=
   fw1_eq _ e n ⟨knot_hc e n, iFindPath_eq⟩ s w
@@ -149,7 +206,7 @@ theorem good_kcallees (e : EOracle) (fuel : Nat) : GoodR e (fuel + 1) (kCallees 
     simp only [kCallees, runFocusHandleEvent1]
     rw [exec1_eq _ e (fuel + 1) (good_kK1 e (fuel + 1)) _ _ (Or.inr (good_kK1_upd e (fuel + 1)))]
     exact fhe_exec e (fuel + 1) s ev _ (Nat.le_refl _)
-  update := fun s t => mu_all e (fuel + 1) s t
+  update := fun s t => muK_eq _ e (fuel + 1) (knot_hc e (fuel + 1)) s t
   updatePath := by
     intro s t
     simp only [kCallees]
